@@ -1,4 +1,1043 @@
-(* FramingProof.v — proofs for C01 (Model/Framing.v against Spec/Rfc9112.v). *)
-From FH Require Import Model.Base Gen.GenC01 Gen.GenC09 Model.ByteClassModel Model.Lines Model.ReqHead Model.Body Model.Framing Spec.Rfc9112.
+(* FramingProof.v — proofs for C01 (Model/Framing.v against Spec/Rfc9112.v).
+
+   1. step_framing / steps_decision: the CL/TE bookkeeping of parseHeaders' loop, folded over ANY list of
+      scanned fields, is code_decision of the Content-Length / Transfer-Encoding values in that list.
+   2. loop_steps / head_fields: RequestHeader.parse (ReqHead.req_head_parse) accepting a buffer means that
+      fold ran over exactly the fields the scanner yields (HeadFields) and ended without error.
+   3. framing_decision: code_decision is sound w.r.t. RFC 9112 s6.3 (Spec.Rfc9112.rfc_decision) for every
+      version flag and every pair of value lists.
+   4. the serve loop: a request whose connectionClose flag is set is the last one dispatched; dispatched
+      requests are contiguous in the stream. *)
+From FH Require Import Model.Base Gen.GenC01 Gen.GenC09 Gen.GenC32 Model.ByteClassModel Model.Lines Model.ReqHead Model.Body Model.Framing Spec.Rfc9112.
+From FH Require Model.Uri Model.Multipart Model.Ints Spec.IntsSpec Proof.IntsProof Proof.BodyProof Spec.HeadSpec Proof.LinesProof Proof.HeadTotalProof.
 From Coq Require Import Lia ZifyBool ZifyN ZifyNat.
 Open Scope nat_scope.
+
+Lemma drop_while_le f l : length (drop_while f l) <= length l.
+Proof. induction l as [|c r IH]; cbn; [lia|]. destruct (f c); cbn; lia. Qed.
+Lemma drop_while_len f l : length (drop_while f l) = length l -> drop_while f l = l.
+Proof. destruct l as [|c r]; cbn; [reflexivity|]. destruct (f c); [|reflexivity]. pose proof (drop_while_le f r). lia. Qed.
+Lemma trim_len_eq k : length (trimTrailingSpace k) = length k -> trimTrailingSpace k = k.
+Proof.
+  unfold trimTrailingSpace, drop_while_right. rewrite rev_length. intros H.
+  rewrite <- (rev_length k) in H. apply drop_while_len in H. rewrite H. apply rev_involutive.
+Qed.
+Lemma cic_len a : forall b, cic a b = true -> length a = length b.
+Proof. induction a as [|x a IH]; destruct b as [|y b]; cbn; try discriminate; [reflexivity|]. intros H. apply andb_true_iff in H as [_ H]. f_equal. auto. Qed.
+
+Definition fproj (st : rqst) := (q_cl st, q_clSeen st, q_teSeen st, q_closeAfter st).
+
+Lemma step_framing cfg v st k val inner st' :
+  disable_special cfg = false ->
+  req_header_step cfg v st k val inner = Ok (StOk st') ->
+  (is_cl_key cfg k inner = true /\ is_te_key cfg k inner = false /\ q_clSeen st = false /\
+     exists n, parseContentLength val = Some n /\
+       fproj st' = ((if Z.eqb (q_cl st) (-1) then q_cl st else n), true, q_teSeen st, q_closeAfter st)) \/
+  (is_cl_key cfg k inner = false /\ is_te_key cfg k inner = true /\ v = false /\ q_teSeen st = false /\
+     ((cic val strChunked = true /\ fproj st' = ((-1)%Z, q_clSeen st, true, q_closeAfter st)) \/
+      (cic val strChunked = false /\ cic val strIdentity = true /\ fproj st' = (q_cl st, q_clSeen st, true, true)))) \/
+  (is_cl_key cfg k inner = false /\ is_te_key cfg k inner = false /\ fproj st' = fproj st).
+Proof.
+  intros Hds. unfold req_header_step.
+  destruct (length (trimTrailingSpace k) =? length k) eqn:El; cbn [negb]; [|discriminate].
+  apply Nat.eqb_eq in El. rewrite (trim_len_eq _ El).
+  destruct k as [|k0 kr]; [discriminate|].
+  unfold is_cl_key, is_te_key, key_norm.
+  set (key := normalizeHeaderKeyValidated (k0 :: kr) (disable_norm cfg || inner)).
+  destruct (validValue val); cbn [negb]; [|discriminate].
+  rewrite Hds.
+  set (c0 := first_lower key).
+  clearbody c0 key.
+  destruct (N.eqb_spec c0 (ch "c")) as [-> | Hc].
+  - change (ch "c" =? ch "t")%N with false. change (ch "c" =? ch "h")%N with false.
+    change (ch "c" =? ch "u")%N with false. cbn [andb].
+    destruct (cic key strContentLength) eqn:Ecl.
+    + destruct (q_clSeen st) eqn:Eseen; [discriminate|].
+      destruct (parseContentLength val) as [n|] eqn:Epc; [|discriminate].
+      assert (Ect : cic key strContentType = false).
+      { destruct (cic key strContentType) eqn:E; [|reflexivity].
+        apply cic_len in E. apply cic_len in Ecl. rewrite Ecl in E. vm_compute in E. discriminate E. }
+      rewrite Ect. intros H; injection H as <-. left. repeat split; auto.
+      exists n. split; [reflexivity|]. unfold fproj. cbn.
+      destruct (q_cl st =? -1)%Z; reflexivity.
+    + right; right. repeat split; auto.
+      destruct (cic key strContentType); [injection H as <-; reflexivity|].
+      destruct (cic key strConnection).
+      * destruct (hasHeaderValue val strClose); injection H as <-; reflexivity.
+      * injection H as <-; reflexivity.
+  - cbn [andb].
+    destruct (N.eqb_spec c0 (ch "t")) as [-> | Ht].
+    + change (ch "t" =? ch "h")%N with false. change (ch "t" =? ch "u")%N with false. cbn [andb].
+      destruct (cic key strTransferEncoding) eqn:Ete.
+      * destruct v; [discriminate|]. destruct (q_teSeen st) eqn:Eseen; [discriminate|].
+        destruct (cic val strIdentity) eqn:Eid, (cic val strChunked) eqn:Ech; cbn [negb andb];
+          intros H; try discriminate; injection H as <-; right; left; repeat split; auto.
+      * right; right. repeat split; auto.
+        destruct (cic key strTrailer).
+        -- destruct (SetTrailerBytes (disable_norm cfg) val) as [[tl bad]| |]; cbn in H; try discriminate.
+           destruct bad; [discriminate|]. injection H as <-; reflexivity.
+        -- injection H as <-; reflexivity.
+    + cbn [andb]. intros H. right; right. repeat split; auto.
+      destruct (c0 =? ch "h")%N.
+      * destruct (cic key strHost); [destruct (q_hostSeen st); [discriminate|]|]; injection H as <-; reflexivity.
+      * destruct (c0 =? ch "u")%N; [destruct (cic key strUserAgent)|]; injection H as <-; reflexivity.
+Qed.
+
+(* ---------- the loop as a fold: what the framing part of the state is after a list of fields ---------- *)
+Definition expect (v : bool) (tes cls : list bytes) : option (Z * bool * bool * bool) :=
+  match cls with
+  | _ :: _ :: _ => None
+  | _ =>
+    match (match cls with
+           | [c] => match parseContentLength c with Some n => Some (Some n) | None => None end
+           | _ => Some None
+           end) with
+    | None => None
+    | Some clo =>
+       let cl0 := match clo with Some n => n | None => (-2)%Z end in
+       let seen := match clo with Some _ => true | None => false end in
+       match tes with
+       | [] => Some (cl0, seen, false, false)
+       | [t] => if v then None
+                else if cic t strChunked then Some ((-1)%Z, seen, true, false)
+                else if cic t strIdentity then Some (cl0, seen, true, true) else None
+       | _ => None
+       end
+    end
+  end.
+
+Lemma decision_expect v tes cls :
+  code_decision v tes cls =
+  match expect v tes cls with
+  | None => CReject
+  | Some (cl, cs, ts, ca) => CAccept cl (ca || (cs && ts))
+  end.
+Proof.
+  unfold code_decision, expect.
+  destruct cls as [|c [|c2 cr]]; [| |reflexivity].
+  - destruct tes as [|t [|t2 tr]]; [reflexivity| |reflexivity].
+    destruct v; [reflexivity|]. destruct (cic t strChunked); [reflexivity|]. destruct (cic t strIdentity); reflexivity.
+  - destruct (parseContentLength c); [|reflexivity].
+    destruct tes as [|t [|t2 tr]]; [reflexivity| |reflexivity].
+    destruct v; [reflexivity|]. destruct (cic t strChunked); [reflexivity|]. destruct (cic t strIdentity); reflexivity.
+Qed.
+
+Lemma expect_cl v tes cls cl ts ca val n :
+  expect v tes cls = Some (cl, false, ts, ca) -> parseContentLength val = Some n ->
+  expect v tes (cls ++ [val]) = Some ((if (cl =? -1)%Z then cl else n), true, ts, ca).
+Proof.
+  unfold expect. intros H Hn.
+  destruct cls as [|c [|c2 cr]]; [| |discriminate].
+  - cbn [app]. rewrite Hn. destruct tes as [|t [|t2 tr]]; [| |discriminate].
+    + injection H as <- <- <-. reflexivity.
+    + destruct v; [discriminate|]. destruct (cic t strChunked); [injection H as <- <- <-; reflexivity|].
+      destruct (cic t strIdentity); [injection H as <- <- <-; reflexivity|discriminate].
+  - destruct (parseContentLength c); [|discriminate].
+    destruct tes as [|t [|t2 tr]]; [discriminate| |discriminate].
+    destruct v; [discriminate|]. destruct (cic t strChunked); [discriminate|].
+    destruct (cic t strIdentity); discriminate.
+Qed.
+
+Lemma expect_te tes cls cl cs ca val :
+  expect false tes cls = Some (cl, cs, false, ca) ->
+  (cic val strChunked = true -> expect false (tes ++ [val]) cls = Some ((-1)%Z, cs, true, ca)) /\
+  (cic val strChunked = false -> cic val strIdentity = true -> expect false (tes ++ [val]) cls = Some (cl, cs, true, true)).
+Proof.
+  unfold expect. intros H.
+  destruct cls as [|c [|c2 cr]]; [| |discriminate].
+  - destruct tes as [|t [|t2 tr]]; [| |discriminate].
+    + injection H as <- <- <-. cbn [app]. split; [intros ->; reflexivity|intros -> ->; reflexivity].
+    + destruct (cic t strChunked); [discriminate|]. destruct (cic t strIdentity); discriminate.
+  - destruct (parseContentLength c); [|discriminate].
+    destruct tes as [|t [|t2 tr]]; [| |discriminate].
+    + injection H as <- <- <-. cbn [app]. split; [intros ->; reflexivity|intros -> ->; reflexivity].
+    + destruct (cic t strChunked); [discriminate|]. destruct (cic t strIdentity); discriminate.
+Qed.
+
+Lemma te_vals_cons cfg k v i l :
+  te_vals cfg ((k, v, i) :: l) = if is_te_key cfg k i then v :: te_vals cfg l else te_vals cfg l.
+Proof. unfold te_vals. cbn. destruct (is_te_key cfg k i); reflexivity. Qed.
+Lemma cl_vals_cons cfg k v i l :
+  cl_vals cfg ((k, v, i) :: l) = if is_cl_key cfg k i then v :: cl_vals cfg l else cl_vals cfg l.
+Proof. unfold cl_vals. cbn. destruct (is_cl_key cfg k i); reflexivity. Qed.
+
+Lemma steps_inv cfg v : disable_special cfg = false -> forall l st st' tes cls,
+  steps cfg v st l = Ok (StOk st') ->
+  expect v tes cls = Some (fproj st) ->
+  expect v (tes ++ te_vals cfg l) (cls ++ cl_vals cfg l) = Some (fproj st').
+Proof.
+  intros Hds. induction l as [|[[k val] inner] l IH]; intros st st' tes cls Hs Hinv.
+  - cbn in Hs. injection Hs as <-. cbn. now rewrite !app_nil_r.
+  - cbn [steps] in Hs.
+    destruct (req_header_step cfg v st k val inner) as [[st1|e]| |] eqn:Hstep; cbn [bind] in Hs; try discriminate.
+    rewrite te_vals_cons, cl_vals_cons.
+    destruct (step_framing _ _ _ _ _ _ _ Hds Hstep) as
+      [(Hc & Ht & Hseen & n & Hn & Hp) | [(Hc & Ht & Hv & Hseen & Hp) | (Hc & Ht & Hp)]]; rewrite Hc, Ht.
+    + replace (cls ++ val :: cl_vals cfg l) with ((cls ++ [val]) ++ cl_vals cfg l) by (now rewrite <- app_assoc).
+      apply (IH _ _ _ _ Hs). rewrite Hp. unfold fproj in Hinv. rewrite Hseen in Hinv.
+      apply (expect_cl _ _ _ _ _ _ _ _ Hinv Hn).
+    + replace (tes ++ val :: te_vals cfg l) with ((tes ++ [val]) ++ te_vals cfg l) by (now rewrite <- app_assoc).
+      apply (IH _ _ _ _ Hs). subst v. unfold fproj in Hinv. rewrite Hseen in Hinv.
+      destruct (expect_te _ _ _ _ _ val Hinv) as [H1 H2].
+      destruct Hp as [[Hch ->] | (Hch & Hid & ->)]; auto.
+    + apply (IH _ _ _ _ Hs). now rewrite Hp.
+Qed.
+
+Theorem steps_decision cfg v l st : disable_special cfg = false ->
+  steps cfg v rq_init l = Ok (StOk st) ->
+  code_decision v (te_vals cfg l) (cl_vals cfg l) = CAccept (q_cl st) (q_closeAfter st || (q_clSeen st && q_teSeen st)).
+Proof.
+  intros Hds Hs. rewrite decision_expect.
+  pose proof (steps_inv cfg v Hds l rq_init st [] [] Hs eq_refl) as H. cbn [app] in H. rewrite H. reflexivity.
+Qed.
+
+(* ---------- the loop of parseHeaders is that fold over what the scanner yields ---------- *)
+Lemma loop_steps cfg v b : forall fuel r st st' r',
+  req_headers_loop fuel cfg v b r st = Ok (StOk (st', r')) ->
+  exists l, Scanned b r l None r' /\ steps cfg v st l = Ok (StOk st').
+Proof.
+  induction fuel as [|fuel IH]; intros r st st' r' H; cbn [req_headers_loop] in H; [discriminate|].
+  destruct (scan_next b r) as [nx| |] eqn:Hn; cbn [bind] in H; try discriminate.
+  destruct nx as [k val inner r1 | e r1].
+  - destruct (req_header_step cfg v st k val inner) as [[st1|e]| |] eqn:Hst; cbn [bind] in H; try discriminate.
+    apply IH in H as (l & Hsc & Hsteps). exists ((k, val, inner) :: l). split.
+    + eapply ScKV; eauto.
+    + cbn [steps]. rewrite Hst. cbn [bind]. exact Hsteps.
+  - destruct e; [discriminate|]. injection H as <- <-. exists []. split; [constructor; exact Hn|reflexivity].
+Qed.
+
+Lemma finish_cl v st : q_cl (req_finish v st) = q_cl st.
+Proof.
+  unfold req_finish.
+  destruct (q_cl st <? 0)%Z eqn:E1; cbn;
+  repeat match goal with |- context [if ?b then _ else _] => destruct b; cbn end; reflexivity.
+Qed.
+Lemma finish_close v st : q_closeAfter st || (q_clSeen st && q_teSeen st) = true -> q_close (req_finish v st) = true.
+Proof.
+  unfold req_finish. intros H.
+  destruct (q_cl st <? 0)%Z; cbn; rewrite H; cbn; rewrite andb_false_r; reflexivity.
+Qed.
+
+Lemma head_fields cfg w hd n :
+  req_head_parse cfg w = HOk (hd, n) ->
+  exists line l st,
+    HeadFields w line l /\ steps cfg (rl_noHTTP11 line) rq_init l = Ok (StOk st) /\
+    meth hd = rl_method line /\ target hd = rl_uri line /\ http11 hd = negb (rl_noHTTP11 line) /\
+    content_length hd = q_cl st /\
+    (q_closeAfter st || (q_clSeen st && q_teSeen st) = true -> conn_close hd = true).
+Proof.
+  unfold req_head_parse, req_parse_R. intros H.
+  destruct (req_parseFirstLine w) as [fl| |] eqn:Hfl; cbn [bind] in H; try discriminate.
+  destruct fl as [|e|line]; try discriminate.
+  destruct (slice w (rl_len line) (length w)) as [rest| |] eqn:Hsl; cbn [bind] in H; try discriminate.
+  destruct (readRawHeaders rest) as [[[raw rawEnd]|]| |] eqn:Hraw; cbn [bind] in H; try discriminate.
+  unfold req_parseHeaders in H.
+  destruct (scan_init rest rawEnd) as [ir| |] eqn:Hinit; cbn [bind] in H; try discriminate.
+  destruct ir as [| | | |b]; cbn [bind] in H; try discriminate.
+  - (* empty header block *)
+    destruct (http11 _ && _); [discriminate|]. injection H as <- <-.
+    exists line, [], rq_init. split; [|split; [reflexivity|]].
+    + exists rest, raw, rawEnd. repeat split; auto.
+    + cbn. repeat split; auto. apply finish_cl. intros Hx; discriminate Hx.
+  - destruct (req_headers_loop (S (length b)) cfg (rl_noHTTP11 line) b 0 rq_init) as [[[st r]|e]| |] eqn:Hloop;
+      cbn [bind] in H; try discriminate.
+    destruct (http11 _ && _); [discriminate|]. injection H as <- <-.
+    apply loop_steps in Hloop as (l & Hsc & Hsteps).
+    exists line, l, st. split; [|split; [exact Hsteps|]].
+    + exists rest, raw, rawEnd. repeat split; auto. right. eauto.
+    + cbn. repeat split; auto using finish_cl, finish_close.
+Qed.
+
+(* ---------- parseContentLength is C30's ParseUint ---------- *)
+Lemma pcl_parseuint v : parseContentLength v = Ints.pres_opt (Ints.ParseUint 64 v).
+Proof.
+  unfold parseContentLength, Ints.ParseUint.
+  destruct (Ints.parseUintBuf 64 v) as [[val cnt] err].
+  destruct err; destruct (cnt =? Z.of_nat (length v))%Z; reflexivity.
+Qed.
+
+Lemma dec_value_bridge s : forall a, forallb Rfc9112.is_digit s = true ->
+  fold_left (fun a c => (10 * a + (Z.of_N c - 48))%Z) s (Z.of_N a) =
+  Z.of_N (fold_left (fun a c => (10 * a + (c - 48))%N) s a).
+Proof.
+  induction s as [|c s IH]; intros a H; [reflexivity|].
+  cbn [forallb] in H. apply andb_true_iff in H as [Hc Hs]. cbn [fold_left].
+  rewrite <- IH by exact Hs. f_equal. unfold Rfc9112.is_digit in Hc. lia.
+Qed.
+
+Lemma pcl_value v n : wf_bytes v -> parseContentLength v = Some n ->
+  Rfc9112.all_digits v = true /\ n = Z.of_N (Rfc9112.dec_value v).
+Proof.
+  intros Hwf H. rewrite pcl_parseuint in H.
+  destruct (Ints.ParseUint 64 v) as [x|e] eqn:Hp; [|discriminate]. injection H as <-.
+  apply (IntsProof.parse_ok_is_value 64 v x (or_intror eq_refl) Hwf) in Hp as (Hne & Hd & Hv & _).
+  assert (Hd' : forallb Rfc9112.is_digit v = true) by exact Hd.
+  split.
+  - unfold Rfc9112.all_digits. destruct v; [congruence|exact Hd'].
+  - rewrite Hv. unfold IntsSpec.dec_value, Rfc9112.dec_value. apply (dec_value_bridge v 0%N Hd').
+Qed.
+
+(* ---------- caseInsensitiveCompare against an all-letters constant ---------- *)
+Lemma byte_forall (P : N -> bool) : forallb P (map N.of_nat (seq 0 256)) = true -> forall x, (x < 256)%N -> P x = true.
+Proof.
+  intros H x Hx. rewrite forallb_forall in H. apply H. apply in_map_iff. exists (N.to_nat x). split.
+  - apply N2Nat.id.
+  - apply in_seq. lia.
+Qed.
+
+Definition letters : list N := map N.of_nat (seq 97 26).
+Lemma lor32_letter x c : (x < 256)%N -> In c letters -> N.lor x 32 = c -> x = c \/ x = (c - 32)%N.
+Proof.
+  intros Hx Hc H.
+  assert (Hall : forallb (fun x => forallb (fun c => implb (N.lor x 32 =? c)%N ((x =? c) || (x =? c - 32))%N) letters)
+                         (map N.of_nat (seq 0 256)) = true) by (vm_compute; reflexivity).
+  pose proof (byte_forall _ Hall x Hx) as H1. rewrite forallb_forall in H1. specialize (H1 c Hc).
+  rewrite H, N.eqb_refl in H1. cbn in H1. apply orb_true_iff in H1 as [H1|H1]; apply N.eqb_eq in H1; auto.
+Qed.
+
+Lemma lor32_letter' x c : (x < 256)%N -> (97 <= c <= 122)%N -> N.lor x 32 = c -> x = c \/ x = (c - 32)%N.
+Proof.
+  intros Hx Hc. apply lor32_letter; [exact Hx|]. unfold letters. apply in_map_iff. exists (N.to_nat c). split; [lia|].
+  apply in_seq. lia.
+Qed.
+
+Ltac split_bytes Hwf :=
+  unfold wf_bytes in Hwf;
+  repeat match goal with H : Forall _ (_ :: _) |- _ => apply Forall_cons_iff in H; destruct H end.
+Ltac split_cic H :=
+  repeat match type of H with (_ && _) = true => let H1 := fresh "Hb" in apply andb_true_iff in H; destruct H as [H1 H] end.
+Ltac case_letter :=
+  match goal with
+  | Hx : (?x < 256)%N, H : (N.lor ?x 32 =? ?k)%N = true |- _ =>
+      apply N.eqb_eq in H;
+      let k' := eval vm_compute in k in
+      change k with k' in H;
+      let E := fresh "E" in
+      destruct (lor32_letter' x k' Hx ltac:(lia) H) as [E | E]; vm_compute in E; subst x; clear H Hx
+  end.
+
+Lemma rfc_te_chunked t : wf_bytes t -> cic t strChunked = true -> forall cls,
+  rfc_decision true [t] cls = {| d_class := match cls with [] => Clean | _ => AmbiguousMustClose end; d_len := BChunked |}.
+Proof.
+  intros Hwf H.
+  destruct t as [|a [|b [|c [|d [|e [|f [|g [|x r]]]]]]]]; try (unfold strChunked in H; cbn [cic] in H; rewrite ?andb_false_r in H; discriminate H).
+  unfold strChunked in H. cbn [cic] in H. split_cic H. split_bytes Hwf.
+  repeat case_letter; intros [|c0 cls]; vm_compute; reflexivity.
+Qed.
+
+Lemma rfc_te_identity t : wf_bytes t -> cic t strIdentity = true -> forall cls,
+  rfc_decision true [t] cls = {| d_class := AmbiguousMustClose; d_len := BNone |}.
+Proof.
+  intros Hwf H.
+  destruct t as [|a [|b [|c [|d [|e [|f [|g [|i [|x r]]]]]]]]];
+    try (unfold strIdentity in H; cbn [cic] in H; rewrite ?andb_false_r in H; discriminate H).
+  unfold strIdentity in H. cbn [cic] in H. split_cic H. split_bytes Hwf.
+  repeat case_letter; intros cls; vm_compute; reflexivity.
+Qed.
+
+Definition decision_sound (c : cdec) (r : decision) : Prop :=
+  match c with
+  | CReject => True
+  | CAccept cl close =>
+      d_class r <> Invalid /\
+      (d_class r <> Clean -> close = true) /\
+      match d_len r with
+      | BFixed n => cl = Z.of_N n \/ (n = 0%N /\ cl = (-2)%Z)
+      | BChunked => cl = (-1)%Z
+      | BNone => True
+      end
+  end.
+
+Theorem framing_decision v11 tes cls :
+  Forall wf_bytes tes -> Forall wf_bytes cls ->
+  decision_sound (code_decision (negb v11) tes cls) (rfc_decision v11 tes cls).
+Proof.
+  intros Ht Hc. unfold code_decision.
+  destruct cls as [|c [|c2 cr]]; [| |exact I].
+  - (* no Content-Length *)
+    destruct tes as [|t [|t2 tr]]; [| |exact I].
+    + cbn. repeat split; try discriminate; auto.
+    + destruct v11; cbn [negb]; [|exact I]. apply Forall_cons_iff in Ht as [Ht _].
+      destruct (cic t strChunked) eqn:Ech.
+      * rewrite (rfc_te_chunked t Ht Ech). cbn. repeat split; try discriminate; auto; try (intros H; now elim H).
+      * destruct (cic t strIdentity) eqn:Eid; [|exact I].
+        rewrite (rfc_te_identity t Ht Eid). cbn. repeat split; try discriminate; auto.
+  - (* one Content-Length *)
+    apply Forall_cons_iff in Hc as [Hc _].
+    destruct (parseContentLength c) as [n|] eqn:Epc; [|exact I].
+    destruct (pcl_value c n Hc Epc) as [Hd Hn].
+    destruct tes as [|t [|t2 tr]]; [| |exact I].
+    + cbn [rfc_decision cl_decision]. rewrite Hd. cbn. repeat split; try discriminate; auto; try (intros H; now elim H).
+    + destruct v11; cbn [negb]; [|exact I]. apply Forall_cons_iff in Ht as [Ht _].
+      destruct (cic t strChunked) eqn:Ech.
+      * rewrite (rfc_te_chunked t Ht Ech). cbn. repeat split; try discriminate; auto.
+      * destruct (cic t strIdentity) eqn:Eid; [|exact I].
+        rewrite (rfc_te_identity t Ht Eid). cbn. repeat split; try discriminate; auto.
+Qed.
+
+(* ================= the serve loop ================= *)
+
+
+Definition disp (x : list dispatched * list response * outcome) : list dispatched := fst (fst x).
+
+Lemma disp_cons_d d x : disp (cons_d d x) = d :: disp x.
+Proof. destruct x as [[ds rs] o]. reflexivity. Qed.
+Lemma disp_cons_r r x : disp (cons_r r x) = disp x.
+Proof. destruct x as [[ds rs] o]. reflexivity. Qed.
+Lemma disp_pre (b : bool) r x : disp (if b then cons_r r x else x) = disp x.
+Proof. destruct b; [apply disp_cons_r|reflexivity]. Qed.
+
+(* one iteration of the loop, as far as dispatching goes *)
+Definition mk_disp (c : fcfg) (rem : bytes) (off : nat) (hd : req_head) (n : nat) (body : option bytes) (rest : bytes) : dispatched :=
+  {| dp_win := firstn (c_bsize c) rem; dp_off := off; dp_hlen := n; dp_len := length rem - length rest;
+     dp_method := meth hd; dp_uri := target hd; dp_body := body; dp_close := conn_close hd |}.
+
+Inductive iter_res :=
+| ItStop                                                        (* nothing dispatched in this iteration *)
+| ItDisp (hd : req_head) (n : nat) (body : option bytes) (rest : bytes).
+
+Definition serve_iter (c : fcfg) (rem : bytes) : iter_res :=
+  match rem with
+  | [] => ItStop
+  | _ =>
+      match req_head_parse (hcfg_of c) (firstn (c_bsize c) rem) with
+      | HOk (hd, n) =>
+          match Uri.parse (host hd) (target hd) with
+          | Uri.UErr _ => ItStop
+          | Uri.UOk _ =>
+              if c_getonly c && negb (is_get_or_head (meth hd)) then ItStop
+              else match read_req_body c hd (skipn n rem) with
+                   | RbOk body rest => ItDisp hd n body rest
+                   | _ => ItStop
+                   end
+          end
+      | _ => ItStop
+      end
+  end.
+
+Lemma disp_serve_S f c rem off :
+  disp (serve (S f) c rem off) =
+  match serve_iter c rem with
+  | ItStop => []
+  | ItDisp hd n body rest =>
+      mk_disp c rem off hd n body rest ::
+      (if conn_close hd then []
+       else if (0 <? length rem - length rest) && (length rem - length rest <=? length rem)
+            then disp (serve f c rest (off + (length rem - length rest))) else [])
+  end.
+Proof.
+  unfold serve_iter. cbn [serve]. destruct rem as [|x rem']; [reflexivity|].
+  set (rem := x :: rem').
+  destruct (req_head_parse (hcfg_of c) (firstn (c_bsize c) rem)) as [[hd n]| |e| |]; try reflexivity.
+  - destruct (Uri.parse (host hd) (target hd)); [|reflexivity].
+    destruct (c_getonly c && negb (is_get_or_head (meth hd))); [reflexivity|].
+    destruct (read_req_body c hd (skipn n rem)) as [body rest|e| |]; try (rewrite disp_pre; reflexivity); [|reflexivity].
+    rewrite disp_pre, disp_cons_d, disp_cons_r. unfold mk_disp. f_equal.
+    destruct (conn_close hd); [reflexivity|].
+    destruct ((0 <? length rem - length rest) && (length rem - length rest <=? length rem)); reflexivity.
+  - destruct (isOnlyCRLF _); [reflexivity|]. destruct (c_bsize c <=? length rem); reflexivity.
+Qed.
+
+Lemma disp_serve_0 c rem off : disp (serve 0 c rem off) = [].
+Proof. reflexivity. Qed.
+
+(* a request dispatched with its connectionClose flag set is the last one *)
+Lemma serve_close_last c : forall fuel rem off i d,
+  nth_error (disp (serve fuel c rem off)) i = Some d -> dp_close d = true ->
+  S i = length (disp (serve fuel c rem off)).
+Proof.
+  induction fuel as [|f IH]; intros rem off i d Hn Hc.
+  - rewrite disp_serve_0 in Hn. destruct i; discriminate.
+  - rewrite disp_serve_S in *. destruct (serve_iter c rem) as [|hd n body rest]; [destruct i; discriminate|].
+    destruct i as [|i]; cbn [nth_error] in Hn.
+    + injection Hn as <-. cbn [dp_close mk_disp] in Hc. rewrite Hc. reflexivity.
+    + destruct (conn_close hd); [destruct i; discriminate|].
+      destruct ((0 <? _) && _); [|destruct i; discriminate].
+      cbn [length]. f_equal. eapply IH; eauto.
+Qed.
+
+(* every dispatched request went through an accepted head, read from its window *)
+Lemma serve_dispatch_head c : forall fuel rem off i d,
+  nth_error (disp (serve fuel c rem off)) i = Some d ->
+  exists hd, req_head_parse (hcfg_of c) (dp_win d) = HOk (hd, dp_hlen d) /\
+             dp_close d = conn_close hd /\ dp_method d = meth hd /\ dp_uri d = target hd.
+Proof.
+  induction fuel as [|f IH]; intros rem off i d Hn.
+  - rewrite disp_serve_0 in Hn. destruct i; discriminate.
+  - rewrite disp_serve_S in Hn. destruct (serve_iter c rem) as [|hd n body rest] eqn:Hit; [destruct i; discriminate|].
+    destruct i as [|i]; cbn [nth_error] in Hn.
+    + injection Hn as <-. exists hd. cbn. repeat split; auto.
+      unfold serve_iter in Hit. destruct rem as [|x rem']; [discriminate|].
+      destruct (req_head_parse _ _) as [[hd' n']| |e| |]; try discriminate.
+      destruct (Uri.parse _ _); [|discriminate].
+      destruct (c_getonly c && _); [discriminate|].
+      destruct (read_req_body _ _ _); try discriminate. injection Hit as <- <- _ _. reflexivity.
+    + destruct (conn_close hd); [destruct i; discriminate|].
+      destruct ((0 <? _) && _); [|destruct i; discriminate]. eapply IH; eauto.
+Qed.
+
+
+
+Definition suffix (r b : bytes) : Prop := exists p, b = p ++ r.
+Lemma suffix_refl b : suffix b b. Proof. now exists []. Qed.
+Lemma suffix_nil b : suffix [] b. Proof. exists b. now rewrite app_nil_r. Qed.
+Lemma suffix_trans a b c : suffix a b -> suffix b c -> suffix a c.
+Proof. intros [p ->] [q ->]. exists (q ++ p). now rewrite app_assoc. Qed.
+Lemma suffix_skipn n b : suffix (skipn n b) b.
+Proof. exists (firstn n b). now rewrite firstn_skipn. Qed.
+Lemma suffix_length r b : suffix r b -> length r <= length b /\ r = skipn (length b - length r) b.
+Proof.
+  intros [p ->]. rewrite app_length. split; [lia|].
+  replace (length p + length r - length r) with (length p) by lia.
+  now rewrite skipn_app, skipn_all, Nat.sub_diag.
+Qed.
+
+Lemma parseChunkSize_suffix b n r : parseChunkSize b = PCOk n r -> suffix r b.
+Proof.
+  unfold parseChunkSize.
+  destruct (Ints.readHexInt 64 GenC30.maxHexIntChars64 b) as [v r0|e] eqn:E0; [|destruct e; discriminate].
+  destruct (pcs_loop r0 false false) as [r1|] eqn:E1; [|discriminate].
+  destruct (readCrLf r1) as [r2|] eqn:E2; [|discriminate].
+  intros [= _ <-].
+  apply BodyProof.rhi_loop_split in E0. apply BodyProof.pcs_loop_split in E1. apply BodyProof.readCrLf_split in E2.
+  eapply suffix_trans; [exact E2|]. eapply suffix_trans; [exact E1|exact E0].
+Qed.
+
+Lemma abfs_suffix b dst n pk d r pk' : appendBodyFixedSize b dst n pk = BOk d r pk' -> suffix r b.
+Proof. intros H. apply BodyProof.appendBodyFixedSize_ok in H as (_ & _ & _ & -> & _). apply suffix_skipn. Qed.
+
+Lemma rbc_loop_suffix : forall fuel max dst b pk d r pk', rbc_loop fuel max dst b pk = BOk d r pk' -> suffix r b.
+Proof.
+  induction fuel as [|f IH]; intros max dst b pk d r pk'; cbn [rbc_loop]; [discriminate|].
+  destruct (parseChunkSize b) as [n r0|e] eqn:Ep; [|discriminate].
+  apply parseChunkSize_suffix in Ep.
+  destruct (n =? 0)%Z; [intros [= _ <- _]; exact Ep|].
+  destruct ((max >? 0)%Z && (blen dst + n >? max)%Z); [discriminate|].
+  destruct (appendBodyFixedSize r0 dst (n + blen GenC34.strCRLF) pk) as [d1 r1 pk1|e d1 pk1| |] eqn:Ea; try discriminate.
+  destruct (ends_crlf d1); [|discriminate].
+  intros H. apply IH in H. apply abfs_suffix in Ea.
+  eapply suffix_trans; [exact H|]. eapply suffix_trans; [exact Ea|exact Ep].
+Qed.
+
+Lemma readBodyChunked_suffix max b d r pk : readBodyChunked max [] b = BOk d r pk -> suffix r b.
+Proof. unfold readBodyChunked. change (0 <? blen [])%Z with false. cbv iota. apply rbc_loop_suffix. Qed.
+
+Lemma rbi_loop_rest : forall fuel max rs b acc dl off pk d r pk', rbi_loop fuel max rs b acc dl off pk = BOk d r pk' -> r = [].
+Proof.
+  induction fuel as [|f IH]; intros max rs b acc dl off pk d r pk'; cbn [rbi_loop]; [discriminate|].
+  destruct b as [|x b]; [intros [= _ <- _]; reflexivity|].
+  cbv zeta. destruct (_ && _); [discriminate|]. destruct (_ =? _)%Z; apply IH.
+Qed.
+
+Lemma reqReadBody_suffix tr cl max b d r pk : cl <> (-1)%Z -> reqReadBody tr cl max b = BOk d r pk -> suffix r b.
+Proof.
+  intros Hcl. unfold reqReadBody.
+  destruct (_ && _); [discriminate|].
+  destruct (cl =? -2)%Z; [intros [= _ <- _]; apply suffix_refl|].
+  destruct (cl >=? 0)%Z.
+  - unfold readBody. destruct (_ && _); [discriminate|]. apply abfs_suffix.
+  - destruct (Z.eqb_spec cl (-1)); [contradiction|].
+    unfold readBodyIdentity. intros H. apply rbi_loop_rest in H. subst r. apply suffix_nil.
+Qed.
+
+Lemma read_req_body_suffix c hd b body rest : read_req_body c hd b = RbOk body rest -> suffix rest b.
+Proof.
+  unfold read_req_body.
+  match goal with |- (if ?x then _ else _) = _ -> _ => destruct x end; [discriminate|].
+  match goal with |- context [match ?x with [] => _ | _ :: _ => _ end] => destruct x as [|x0 bd] eqn:Eb end.
+  - destruct (Z.eqb_spec (content_length hd) (-1)) as [E|E].
+    + destruct (readBodyChunked (c_maxbody c) [] b) as [d r pk|e d pk| |] eqn:Er; try discriminate.
+      * unfold read_trailer. destruct r as [|y r]; [discriminate|].
+        destruct (parse_trailer _) as [[n| |]| |]; try discriminate.
+        -- intros [= _ <-]. eapply suffix_trans; [apply suffix_skipn|]. eapply readBodyChunked_suffix; eauto.
+        -- match goal with |- context [if ?x then TrFail ESmallBuf else _] => destruct x end; discriminate.
+      * destruct e; discriminate.
+    + destruct (reqReadBody trailer_reject (content_length hd) (c_maxbody c) b) as [d r pk|e d pk| |] eqn:Er; try discriminate.
+      intros [= _ <-]. eapply reqReadBody_suffix; eauto.
+  - destruct (peekArgBytes (fields hd) strContentEncoding).
+    + match goal with |- (if ?x then _ else _) = _ -> _ => destruct x end; [discriminate|].
+      destruct (Multipart.read_form _ _ _); [|discriminate].
+      intros [= _ <-]. apply suffix_skipn.
+    + assert (Hpos : (content_length hd >? 0)%Z = true).
+      { destruct (content_length hd >? 0)%Z; [reflexivity|]. cbn in Eb. discriminate. }
+      destruct (reqReadBody trailer_reject (content_length hd) (c_maxbody c) b) as [d r pk|e d pk| |] eqn:Er; try discriminate.
+      intros [= _ <-]. eapply reqReadBody_suffix; eauto. lia.
+Qed.
+
+Lemma serve_iter_inv c rem hd n body rest :
+  serve_iter c rem = ItDisp hd n body rest ->
+  rem <> [] /\ req_head_parse (hcfg_of c) (firstn (c_bsize c) rem) = HOk (hd, n) /\
+  (c_getonly c = true -> is_get_or_head (meth hd) = true) /\
+  read_req_body c hd (skipn n rem) = RbOk body rest.
+Proof.
+  unfold serve_iter. destruct rem as [|x rem']; [discriminate|]. set (rem := x :: rem').
+  destruct (req_head_parse _ _) as [[hd' n']| |e| |]; try discriminate.
+  destruct (Uri.parse _ _); [|discriminate].
+  destruct (c_getonly c) eqn:Eg; cbn [andb].
+  - destruct (is_get_or_head (meth hd')) eqn:Em; cbn [negb]; [|discriminate].
+    destruct (read_req_body _ _ _) eqn:Er; try discriminate. intros [= <- <- <- <-]. repeat split; auto. discriminate.
+  - destruct (read_req_body _ _ _) eqn:Er; try discriminate. intros [= <- <- <- <-]. repeat split; auto; discriminate.
+Qed.
+
+Lemma skipn_skipn' {A} a b (l : list A) : skipn a (skipn b l) = skipn (b + a) l.
+Proof. revert l; induction b as [|b IH]; intros l; [reflexivity|]. destruct l; [now rewrite !skipn_nil|]. cbn. apply IH. Qed.
+
+Lemma head_len_aux_pos ih cur b : forall k N, HeadSpec.head_len_aux ih cur b k = Some N -> k < N.
+Proof.
+  revert ih cur. induction b as [|x b IH]; intros ih cur k N; cbn [HeadSpec.head_len_aux]; [discriminate|].
+  destruct (N.eqb x LF).
+  - destruct (HeadSpec.cur_blank cur).
+    + destruct ih; [intros [= <-]; lia|]. intros H. apply IH in H. lia.
+    + intros H. apply IH in H. lia.
+  - intros H. apply IH in H. lia.
+Qed.
+
+Lemma head_consumed_pos cfg w hd n : req_head_parse cfg w = HOk (hd, n) -> 0 < n <= length w.
+Proof.
+  intros H. apply HeadTotalProof.req_head_no_overread in H as [H1 H2]. apply head_len_aux_pos in H1. lia.
+Qed.
+
+Lemma serve_offsets c s : forall fuel off i d,
+  off <= length s ->
+  nth_error (disp (serve fuel c (skipn off s) off)) i = Some d ->
+  dp_win d = firstn (c_bsize c) (skipn (dp_off d) s) /\ dp_off d + dp_len d <= length s /\ 0 < dp_hlen d <= dp_len d /\
+  off <= dp_off d /\ (i = 0 -> dp_off d = off) /\
+  (forall d', nth_error (disp (serve fuel c (skipn off s) off)) (S i) = Some d' -> dp_off d' = dp_off d + dp_len d).
+Proof.
+  induction fuel as [|f IH]; intros off i d Hoff Hn.
+  - rewrite disp_serve_0 in Hn. destruct i; discriminate.
+  - rewrite disp_serve_S in *. set (rem := skipn off s) in *.
+    destruct (serve_iter c rem) as [|hd n body rest] eqn:Hit; [destruct i; discriminate|].
+    apply serve_iter_inv in Hit as (Hne & Hp & _ & Hb).
+    apply read_req_body_suffix in Hb.
+    assert (Hsuf : suffix rest rem) by (eapply suffix_trans; [exact Hb|apply suffix_skipn]).
+    destruct (suffix_length _ _ Hsuf) as [Hle Hrest].
+    destruct (suffix_length _ _ Hb) as [Hle2 _]. rewrite skipn_length in Hle2.
+    assert (Hlen : length rem = length s - off) by (unfold rem; apply skipn_length).
+    apply head_consumed_pos in Hp. rewrite firstn_length in Hp.
+    set (len := length rem - length rest) in *.
+    assert (Hlendef : len = length rem - length rest) by reflexivity.
+    assert (Hb1 : off + len <= length s) by lia.
+    assert (Hb2 : n <= len) by lia.
+    assert (Hrest' : rest = skipn (off + len) s) by (rewrite Hrest; unfold rem; apply skipn_skipn').
+    destruct i as [|i]; cbn [nth_error] in Hn.
+    + injection Hn as <-. cbn [mk_disp dp_win dp_off dp_len dp_hlen]. fold rem. fold len.
+      repeat split; auto; try lia.
+      intros d' Hd'. cbn [nth_error] in Hd'.
+      destruct (conn_close hd); [discriminate|].
+      destruct ((0 <? len) && (len <=? length rem)); [|discriminate].
+      rewrite Hrest' in Hd'.
+      assert (Hd'' : nth_error (disp (serve f c (skipn (off + len) s) (off + len))) 0 = Some d') by exact Hd'.
+      apply IH in Hd'' as (_ & _ & _ & _ & H0 & _); [|exact Hb1]. now apply H0.
+    + destruct (conn_close hd); [destruct i; discriminate|].
+      destruct ((0 <? len) && (len <=? length rem)); [|destruct i; discriminate].
+      rewrite Hrest' in Hn |- *. destruct (IH _ _ _ Hb1 Hn) as (H1 & H2 & H3 & H4 & H5 & H6).
+      repeat split; auto; try lia.
+Qed.
+
+(* ================= scanned values are byte strings ================= *)
+Lemma wf_firstn n b : wf_bytes b -> wf_bytes (firstn n b).
+Proof. unfold wf_bytes. revert b; induction n; intros [|x b] H; cbn; auto. inversion H; subst. constructor; auto. Qed.
+Lemma wf_skipn n b : wf_bytes b -> wf_bytes (skipn n b).
+Proof. unfold wf_bytes. revert b; induction n; intros [|x b] H; cbn; auto. inversion H; subst. auto. Qed.
+Lemma wf_app a b : wf_bytes a -> wf_bytes b -> wf_bytes (a ++ b).
+Proof. unfold wf_bytes. intros. apply Forall_app; auto. Qed.
+Lemma wf_rev b : wf_bytes b -> wf_bytes (rev b).
+Proof. unfold wf_bytes. apply Forall_rev. Qed.
+Lemma wf_drop_while f b : wf_bytes b -> wf_bytes (drop_while f b).
+Proof. unfold wf_bytes. induction b as [|x b IH]; cbn; auto. intros H. destruct (f x); auto. inversion H; auto. Qed.
+Lemma wf_trim b : wf_bytes b -> wf_bytes (trim b).
+Proof. intros H. unfold trim, drop_while_right. apply wf_rev, wf_drop_while, wf_rev, wf_drop_while, H. Qed.
+Lemma wf_slice b lo hi x : slice b lo hi = Ok x -> wf_bytes b -> wf_bytes x.
+Proof. unfold slice. destruct (_ && _); [|discriminate]. intros [= <-] H. now apply wf_firstn, wf_skipn. Qed.
+
+Lemma wf_readLine b r line r' : readLine b r = Ok (line, r') -> wf_bytes b -> wf_bytes line.
+Proof.
+  unfold readLine. intros H Hwf.
+  destruct (slice b r (length b)) as [t| |] eqn:Et; cbn [bind] in H; try discriminate.
+  destruct (index_byte t LF) as [i|]; [|injection H as <- _; constructor].
+  destruct (slice b r (r + i)) as [l0| |] eqn:El; cbn [bind] in H; try discriminate.
+  pose proof (wf_slice _ _ _ _ El Hwf) as Hl0.
+  destruct (0 <? i).
+  - destruct (idx l0 (i - 1)) as [c| |]; cbn [bind] in H; try discriminate.
+    destruct (N.eqb c CR).
+    + destruct (slice l0 0 (i - 1)) as [l1| |] eqn:El1; cbn [bind] in H; try discriminate.
+      injection H as <- _. eapply wf_slice; eauto.
+    + injection H as <- _. exact Hl0.
+  - injection H as <- _. exact Hl0.
+Qed.
+
+Lemma wf_cont_loop : forall fuel b r mline m' r', cont_loop fuel b r mline = Ok (m', r') ->
+  wf_bytes b -> wf_bytes mline -> wf_bytes m'.
+Proof.
+  induction fuel as [|f IH]; intros b r mline m' r' H Hb Hm; cbn [cont_loop] in H; [discriminate|].
+  destruct (skipSpace b r) as [[r1 skipped]| |]; cbn [bind] in H; try discriminate.
+  destruct skipped.
+  - destruct (readLine b r1) as [[line r2]| |] eqn:Erl; cbn [bind] in H; try discriminate.
+    eapply IH; eauto. apply wf_app; [exact Hm|]. apply wf_app.
+    + repeat constructor.
+    + apply wf_trim. eapply wf_readLine; eauto.
+  - injection H as <- _. exact Hm.
+Qed.
+
+Lemma wf_rcls b r kv colon r1 : readContinuedLineSlice b r = Ok (CLLine kv colon r1) -> wf_bytes b -> wf_bytes kv.
+Proof.
+  unfold readContinuedLineSlice. intros H Hb.
+  destruct (readLine b r) as [[line r0]| |] eqn:Erl; cbn [bind] in H; try discriminate.
+  pose proof (wf_readLine _ _ _ _ Erl Hb) as Hl.
+  destruct line as [|x line]; [discriminate|].
+  destruct (index_byte (x :: line) COLON) as [cl|]; [|discriminate].
+  match type of H with (do early <- ?e; _) = _ => destruct e as [early| |] end; cbn [bind] in H; try discriminate.
+  destruct early.
+  - injection H as <- _ _. now apply wf_trim.
+  - destruct (cont_loop _ _ _ _) as [[mline r2]| |] eqn:Ec; cbn [bind] in H; try discriminate.
+    injection H as <- _ _. eapply wf_cont_loop; eauto. now apply wf_trim.
+Qed.
+
+Lemma wf_scan_next b r k v inner r1 : scan_next b r = Ok (NKV k v inner r1) -> wf_bytes b -> wf_bytes k /\ wf_bytes v.
+Proof.
+  unfold scan_next. intros H Hb.
+  destruct (readContinuedLineSlice b r) as [cl| |] eqn:Ec; cbn [bind] in H; try discriminate.
+  destruct cl as [r0|r0|kv colon r0]; try discriminate.
+  pose proof (wf_rcls _ _ _ _ _ Ec Hb) as Hkv.
+  destruct kv as [|x kv]; [discriminate|].
+  destruct (slice (x :: kv) 0 colon) as [k0| |] eqn:Ek; cbn [bind] in H; try discriminate.
+  destruct (slice (x :: kv) (colon + 1) _) as [v0| |] eqn:Ev; cbn [bind] in H; try discriminate.
+  destruct (isValidHeaderKey k0) as [valid inn]. destruct valid; cbn [negb] in H; [|discriminate].
+  injection H as <- <- _ _. split; [eapply wf_slice; eauto|]. apply wf_drop_while. eapply wf_slice; eauto.
+Qed.
+
+Lemma wf_scanned b : wf_bytes b -> forall r l e r', Scanned b r l e r' -> Forall (fun x => wf_bytes (snd (fst x))) l.
+Proof.
+  intros Hb r l e r' H. induction H as [|r k v inner r1 l e r2 Hn _ IH]; [constructor|].
+  constructor; [|exact IH]. cbn. eapply wf_scan_next; eauto.
+Qed.
+
+Lemma wf_scan_init b be b' : scan_init b be = Ok (IReady b') -> wf_bytes b -> wf_bytes b'.
+Proof.
+  unfold scan_init. intros H Hb. destruct (has_prefix strCRLF b); [discriminate|].
+  match type of H with (do ob <- ?e; _) = _ => destruct e as [ob| |] eqn:Eo end; cbn [bind] in H; try discriminate.
+  destruct ob as [| |x]; try discriminate.
+  assert (Hx : wf_bytes x).
+  { destruct (0 <? be).
+    - destruct (block_end_ok b be) as [g| |]; cbn [bind] in Eo; try discriminate.
+      destruct g; [|discriminate].
+      destruct (slice b 0 be) as [y| |] eqn:Ey; cbn [bind] in Eo; try discriminate.
+      injection Eo as <-. eapply wf_slice; eauto.
+    - destruct (index_sub strCRLFCRLF b) as [i|]; [|discriminate].
+      destruct (slice b 0 (i + 4)) as [y| |] eqn:Ey; cbn [bind] in Eo; try discriminate.
+      injection Eo as <-. eapply wf_slice; eauto. }
+  destruct x as [|c x]; [injection H as <-; exact Hx|].
+  destruct (is_sp_ht c); [discriminate|]. injection H as <-. exact Hx.
+Qed.
+
+Lemma wf_head_fields w line l : wf_bytes w -> HeadFields w line l -> Forall (fun x => wf_bytes (snd (fst x))) l.
+Proof.
+  intros Hw (rest & raw & rawEnd & _ & Hsl & _ & [[_ ->]|(b & r & Hi & Hs)]); [constructor|].
+  eapply wf_scanned; [|exact Hs]. eapply wf_scan_init; [exact Hi|]. eapply wf_slice; eauto.
+Qed.
+
+Lemma wf_vals cfg l : Forall (fun x => wf_bytes (snd (fst x))) l ->
+  Forall wf_bytes (te_vals cfg l) /\ Forall wf_bytes (cl_vals cfg l).
+Proof.
+  intros H. unfold te_vals, cl_vals. split; apply Forall_map; apply Forall_forall; intros x Hx;
+    apply filter_In in Hx as [Hx _]; rewrite Forall_forall in H; now apply H.
+Qed.
+
+Lemma scanned_fun b : forall r l e r', Scanned b r l e r' -> forall l2 e2 r2, Scanned b r l2 e2 r2 -> l = l2 /\ e = e2 /\ r' = r2.
+Proof.
+  intros r l e r' H. induction H as [r e r1 Hn|r k v inner r1 l e r2 Hn _ IH]; intros l2 e2 r3 H2; inversion H2; subst.
+  - rewrite Hn in H. injection H as <- <-. auto.
+  - rewrite Hn in H. discriminate.
+  - rewrite Hn in H. discriminate.
+  - rewrite Hn in H. injection H as <- <- <- <-. destruct (IH _ _ _ H0) as (-> & -> & ->). auto.
+Qed.
+
+Lemma head_fields_fun w line l line' l' : HeadFields w line l -> HeadFields w line' l' -> line = line' /\ l = l'.
+Proof.
+  intros (rest & raw & rawEnd & H1 & H2 & H3 & H4) (rest' & raw' & rawEnd' & H1' & H2' & H3' & H4').
+  rewrite H1 in H1'. injection H1' as <-. rewrite H2 in H2'. injection H2' as <-.
+  rewrite H3 in H3'. injection H3' as <- <-. split; [reflexivity|].
+  destruct H4 as [[Hi ->]|(b & r & Hi & Hs)], H4' as [[Hi' ->]|(b' & r' & Hi' & Hs')]; try (rewrite Hi in Hi'; discriminate).
+  - reflexivity.
+  - rewrite Hi in Hi'. injection Hi' as <-. now destruct (scanned_fun _ _ _ _ _ Hs _ _ _ Hs').
+Qed.
+
+
+(* ================= the theorems of C01 ================= *)
+
+(* an accepted head: the framing the code derived from it is the RFC's, judged on the very fields the code scanned *)
+Theorem head_decision_sound cfg w hd n :
+  disable_special cfg = false -> wf_bytes w -> req_head_parse cfg w = HOk (hd, n) ->
+  exists line l, HeadFields w line l /\ http11 hd = negb (rl_noHTTP11 line) /\
+    meth hd = rl_method line /\ target hd = rl_uri line /\
+    let r := rfc_decision (http11 hd) (te_vals cfg l) (cl_vals cfg l) in
+    d_class r <> Invalid /\ (d_class r <> Clean -> conn_close hd = true) /\
+    match d_len r with
+    | BFixed k => content_length hd = Z.of_N k \/ (k = 0%N /\ content_length hd = (-2)%Z)
+    | BChunked => content_length hd = (-1)%Z
+    | BNone => True
+    end.
+Proof.
+  intros Hds Hw Hp.
+  destruct (head_fields _ _ _ _ Hp) as (line & l & st & Hf & Hs & Hm & Ht & Hv & Hcl & Hclose).
+  exists line, l. split; [exact Hf|]. split; [exact Hv|]. split; [exact Hm|]. split; [exact Ht|].
+  pose proof (steps_decision _ _ _ _ Hds Hs) as Hd.
+  destruct (wf_vals cfg l (wf_head_fields _ _ _ Hw Hf)) as [Hte Hcv].
+  pose proof (framing_decision (http11 hd) _ _ Hte Hcv) as Hsound.
+  rewrite Hv, Bool.negb_involutive, Hd in Hsound. rewrite Hv.
+  destruct Hsound as (H1 & H2 & H3). cbv zeta. split; [exact H1|]. split.
+  - intros Hc. apply Hclose, H2, Hc.
+  - rewrite Hcl. exact H3.
+Qed.
+
+Lemma serve_frames_unfold c s : serve_frames c s = serve (S (length s)) c (skipn 0 s) 0.
+Proof. reflexivity. Qed.
+
+Lemma dispatched_window_wf c s i d : wf_bytes s -> nth_error (disp (serve_frames c s)) i = Some d -> wf_bytes (dp_win d).
+Proof.
+  intros Hs Hn. rewrite serve_frames_unfold in Hn.
+  apply serve_offsets in Hn as (-> & _); [|lia]. now apply wf_firstn, wf_skipn.
+Qed.
+
+(* C01_ambiguous_is_last *)
+Theorem ambiguous_is_last c s i d line l :
+  wf_bytes s ->
+  nth_error (disp (serve_frames c s)) i = Some d ->
+  HeadFields (dp_win d) line l ->
+  d_class (rfc_decision (negb (rl_noHTTP11 line)) (te_vals (hcfg_of c) l) (cl_vals (hcfg_of c) l)) <> Clean ->
+  S i = length (disp (serve_frames c s)).
+Proof.
+  intros Hs Hn Hf Hc.
+  pose proof (dispatched_window_wf _ _ _ _ Hs Hn) as Hw.
+  destruct (serve_dispatch_head _ _ _ _ _ _ Hn) as (hd & Hp & Hcl & _).
+  destruct (head_decision_sound (hcfg_of c) _ _ _ eq_refl Hw Hp) as (line' & l' & Hf' & Hv & _ & _ & _ & Hclose & _).
+  destruct (head_fields_fun _ _ _ _ _ Hf Hf') as [<- <-].
+  eapply serve_close_last; [exact Hn|]. rewrite Hcl. apply Hclose. rewrite Hv. exact Hc.
+Qed.
+
+(* C01_invalid_never_dispatched, part 1: no dispatched request has Invalid framing *)
+Theorem invalid_not_dispatched c s i d line l :
+  wf_bytes s ->
+  nth_error (disp (serve_frames c s)) i = Some d ->
+  HeadFields (dp_win d) line l ->
+  d_class (rfc_decision (negb (rl_noHTTP11 line)) (te_vals (hcfg_of c) l) (cl_vals (hcfg_of c) l)) <> Invalid.
+Proof.
+  intros Hs Hn Hf.
+  pose proof (dispatched_window_wf _ _ _ _ Hs Hn) as Hw.
+  destruct (serve_dispatch_head _ _ _ _ _ _ Hn) as (hd & Hp & _).
+  destruct (head_decision_sound (hcfg_of c) _ _ _ eq_refl Hw Hp) as (line' & l' & Hf' & Hv & _ & _ & Hinv & _).
+  destruct (head_fields_fun _ _ _ _ _ Hf Hf') as [<- <-]. rewrite Hv in Hinv. exact Hinv.
+Qed.
+
+(* part 2: in ANY state of the loop, a buffered head whose framing is Invalid is answered with the error
+   response (400, Connection: close) and the connection is closed — nothing is dispatched *)
+Lemma head_fields_answered cfg w line l : HeadFields w line l ->
+  (exists hd n, req_head_parse cfg w = HOk (hd, n)) \/ (exists e, req_head_parse cfg w = HErr e).
+Proof.
+  intros (rest & raw & rawEnd & H1 & H2 & H3 & H4).
+  pose proof (HeadTotalProof.req_head_total cfg w) as [Hnp Hnf].
+  unfold req_head_parse in *. unfold req_parse_R in *. rewrite H1 in *. cbn [bind] in *. rewrite H2 in *. cbn [bind] in *.
+  rewrite H3 in *. cbn [bind] in *. unfold req_parseHeaders in *.
+  destruct H4 as [[Hi _]|(b & r & Hi & _)]; rewrite Hi in *; cbn [bind] in *.
+  - match goal with |- context [if ?x then _ else _] => destruct x end; eauto.
+  - destruct (req_headers_loop _ _ _ _ _ _) as [[[st r0]|e]| |]; cbn [bind] in *; try congruence; eauto.
+    match goal with |- context [if ?x then _ else _] => destruct x end; eauto.
+Qed.
+
+Theorem invalid_rejected c f rem off line l :
+  rem <> [] -> wf_bytes rem ->
+  HeadFields (firstn (c_bsize c) rem) line l ->
+  d_class (rfc_decision (negb (rl_noHTTP11 line)) (te_vals (hcfg_of c) l) (cl_vals (hcfg_of c) l)) = Invalid ->
+  serve (S f) c rem off = ([], [{| rs_status := StatusBadRequest; rs_close := true |}], OErr).
+Proof.
+  intros Hne Hw Hf Hinv. destruct rem as [|x rem']; [contradiction|]. set (rem := x :: rem') in *.
+  cbn [serve]. fold rem.
+  destruct (head_fields_answered (hcfg_of c) _ _ _ Hf) as [(hd & n & Hp)|(e & Hp)]; rewrite Hp.
+  - exfalso. destruct (head_decision_sound (hcfg_of c) _ _ _ eq_refl (wf_firstn _ _ Hw) Hp) as (line' & l' & Hf' & Hv & _ & _ & Hni & _).
+    destruct (head_fields_fun _ _ _ _ _ Hf Hf') as [<- <-]. rewrite Hv in Hni. contradiction.
+  - reflexivity.
+Qed.
+
+(* C01_continue_or_close *)
+Theorem continue_or_close c s i d :
+  nth_error (disp (serve_frames c s)) i = Some d ->
+  dp_off d + dp_len d <= length s /\ 0 < dp_hlen d <= dp_len d /\
+  (i = 0 -> dp_off d = 0) /\
+  match nth_error (disp (serve_frames c s)) (S i) with
+  | Some d' => dp_off d' = dp_off d + dp_len d /\ dp_close d = false
+  | None => True
+  end.
+Proof.
+  intros Hn. pose proof Hn as Hn'. rewrite serve_frames_unfold in Hn'.
+  apply serve_offsets in Hn' as (_ & H1 & H2 & _ & H3 & H4); [|lia].
+  repeat split; auto; try lia.
+  destruct (nth_error (disp (serve_frames c s)) (S i)) as [d'|] eqn:E; [|exact I].
+  split; [apply H4; exact E|].
+  destruct (dp_close d) eqn:Ec; [|reflexivity].
+  pose proof (serve_close_last _ _ _ _ _ _ Hn Ec) as Hl.
+  assert (Hlt : S i < length (disp (serve_frames c s))) by (apply nth_error_Some; congruence).
+  unfold serve_frames in *. lia.
+Qed.
+
+(* ---------- fixed-length bodies ---------- *)
+Lemma reqReadBody_fixed tr cl max b d r pk k :
+  reqReadBody tr cl max b = BOk d r pk -> (cl = Z.of_N k \/ (k = 0%N /\ cl = (-2)%Z)) ->
+  r = skipn (N.to_nat k) b /\ N.to_nat k <= length b /\ d = firstn (N.to_nat k) b.
+Proof.
+  unfold reqReadBody. intros H Hk.
+  match type of H with (if ?x then _ else _) = _ => destruct x end; [discriminate|].
+  destruct (Z.eqb_spec cl (-2)) as [E|E].
+  - injection H as <- <- _. destruct Hk as [Hk|[-> _]]; [lia|]. cbn. repeat split; auto. lia.
+  - destruct Hk as [Hk|[_ Hk]]; [|contradiction].
+    destruct (Z.geb_spec cl 0) as [G|G]; [|lia].
+    unfold readBody in H. match type of H with (if ?x then _ else _) = _ => destruct x end; [discriminate|].
+    apply BodyProof.appendBodyFixedSize_ok in H as (_ & Hle & -> & -> & _).
+    unfold bdrop, btake, blen in *. subst cl. replace (Z.to_nat (Z.of_N k)) with (N.to_nat k) by lia. cbn [app]. repeat split; auto. lia.
+Qed.
+
+Lemma read_req_body_fixed c hd b body rest k :
+  read_req_body c hd b = RbOk body rest ->
+  (content_length hd = Z.of_N k \/ (k = 0%N /\ content_length hd = (-2)%Z)) ->
+  rest = skipn (N.to_nat k) b /\ N.to_nat k <= length b /\ (body = None \/ body = Some (firstn (N.to_nat k) b)).
+Proof.
+  unfold read_req_body. intros H Hk.
+  match type of H with (if ?x then _ else _) = _ => destruct x end; [discriminate|].
+  match type of H with context [match ?x with [] => _ | _ :: _ => _ end] => destruct x as [|x0 bd] eqn:Eb end.
+  - destruct (Z.eqb_spec (content_length hd) (-1)) as [E|E]; [lia|].
+    destruct (reqReadBody trailer_reject (content_length hd) (c_maxbody c) b) as [d r pk|e d pk| |] eqn:Er; try discriminate.
+    injection H as <- <-. destruct (reqReadBody_fixed _ _ _ _ _ _ _ _ Er Hk) as (-> & Hl & ->). auto.
+  - assert (Hpos : (content_length hd >? 0)%Z = true).
+    { destruct (content_length hd >? 0)%Z; [reflexivity|]. cbn in Eb. discriminate. }
+    destruct Hk as [Hk|[_ Hk]]; [|lia].
+    destruct (peekArgBytes (fields hd) strContentEncoding).
+    + match type of H with (if ?x then _ else _) = _ => destruct x eqn:El end; [discriminate|].
+      destruct (Multipart.read_form _ _ _); [|discriminate].
+      injection H as <- <-. rewrite Hk in *. replace (Z.to_nat (Z.of_N k)) with (N.to_nat k) by lia. repeat split; auto. lia.
+    + destruct (reqReadBody trailer_reject (content_length hd) (c_maxbody c) b) as [d r pk|e d pk| |] eqn:Er; try discriminate.
+      injection H as <- <-. destruct (reqReadBody_fixed _ _ _ _ _ _ _ k Er (or_introl Hk)) as (-> & Hl & ->). auto.
+Qed.
+
+(* ---------- ReduceMemoryUsage is not consulted ---------- *)
+Definition set_reduce (b : bool) (c : fcfg) : fcfg :=
+  {| c_reduce := b; c_nonorm := c_nonorm c; c_getonly := c_getonly c; c_noprep := c_noprep c;
+     c_bsize := c_bsize c; c_maxbody := c_maxbody c |}.
+
+Lemma serve_reduce_indep b c : forall fuel rem off, serve fuel (set_reduce b c) rem off = serve fuel c rem off.
+Proof.
+  induction fuel as [|f IH]; intros rem off; [reflexivity|].
+  cbn [serve]. unfold read_req_body. cbn [set_reduce c_bsize c_getonly c_noprep c_maxbody c_nonorm hcfg_of].
+  change (hcfg_of (set_reduce b c)) with (hcfg_of c).
+  repeat (match goal with |- context [match ?x with _ => _ end] => destruct x end; try reflexivity);
+    rewrite ?IH; reflexivity.
+Qed.
+
+(* ---------- which fields are Content-Length / Transfer-Encoding does not depend on DisableHeaderNamesNormalizing ---------- *)
+Lemma tables_keep_class x : (x < 256)%N ->
+  N.lor (tbl toUpperTable x) 32 = N.lor x 32 /\ N.lor (tbl toLowerTable x) 32 = N.lor x 32.
+Proof.
+  intros Hx.
+  pose proof (byte_forall (fun x => (N.lor (tbl toUpperTable x) 32 =? N.lor x 32)%N && (N.lor (tbl toLowerTable x) 32 =? N.lor x 32)%N)
+                ltac:(vm_compute; reflexivity) x Hx) as H.
+  apply andb_true_iff in H as [H1 H2]. split; now apply N.eqb_eq.
+Qed.
+
+Lemma nhk_cic s : wf_bytes s -> forall up t, cic (nhk_loop up s) t = cic s t.
+Proof.
+  induction s as [|x s IH]; intros Hs up t; [reflexivity|].
+  apply Forall_cons_iff in Hs as [Hx Hs]. cbn [nhk_loop cic]. destruct t as [|y t]; [reflexivity|].
+  destruct (tables_keep_class x Hx) as [H1 H2]. rewrite IH by exact Hs.
+  destruct up; [rewrite H1|rewrite H2]; reflexivity.
+Qed.
+Lemma nhk_first s : wf_bytes s -> forall up, first_lower (nhk_loop up s) = first_lower s.
+Proof.
+  destruct s as [|x s]; intros Hs up; [reflexivity|]. apply Forall_cons_iff in Hs as [Hx _].
+  cbn [nhk_loop first_lower]. destruct (tables_keep_class x Hx) as [H1 H2]. destruct up; assumption.
+Qed.
+
+Lemma key_class_norm_indep cfg cfg' k inner : wf_bytes k ->
+  is_cl_key cfg k inner = is_cl_key cfg' k inner /\ is_te_key cfg k inner = is_te_key cfg' k inner.
+Proof.
+  intros Hk. unfold is_cl_key, is_te_key, key_norm, normalizeHeaderKeyValidated.
+  destruct (disable_norm cfg || inner), (disable_norm cfg' || inner); rewrite ?nhk_cic, ?nhk_first by exact Hk; auto.
+Qed.
+
+Lemma framing_fields_norm_indep cfg cfg' l : Forall (fun x => wf_bytes (fst (fst x))) l ->
+  te_vals cfg l = te_vals cfg' l /\ cl_vals cfg l = cl_vals cfg' l.
+Proof.
+  induction l as [|[[k v] inner] l IH]; intros H; [auto|].
+  apply Forall_cons_iff in H as [Hk H]. cbn in Hk. destruct (IH H) as [I1 I2].
+  rewrite !te_vals_cons, !cl_vals_cons. destruct (key_class_norm_indep cfg cfg' k inner Hk) as [-> ->].
+  rewrite I1, I2. auto.
+Qed.
+
+Lemma wf_scanned_keys b : wf_bytes b -> forall r l e r', Scanned b r l e r' -> Forall (fun x => wf_bytes (fst (fst x))) l.
+Proof.
+  intros Hb r l e r' H. induction H as [|r k v inner r1 l e r2 Hn _ IH]; [constructor|].
+  constructor; [|exact IH]. cbn. destruct (wf_scan_next _ _ _ _ _ _ Hn Hb) as [Hk _]. exact Hk.
+Qed.
+Lemma wf_head_keys w line l : wf_bytes w -> HeadFields w line l -> Forall (fun x => wf_bytes (fst (fst x))) l.
+Proof.
+  intros Hw (rest & raw & rawEnd & _ & Hsl & _ & [[_ ->]|(b & r & Hi & Hs)]); [constructor|].
+  eapply wf_scanned_keys; [|exact Hs]. eapply wf_scan_init; [exact Hi|]. eapply wf_slice; eauto.
+Qed.
+
+(* every dispatched request: its head was accepted from its window, its body read from right behind the head *)
+Lemma serve_dispatch_full c s : forall fuel off i d,
+  off <= length s ->
+  nth_error (disp (serve fuel c (skipn off s) off)) i = Some d ->
+  exists hd, req_head_parse (hcfg_of c) (dp_win d) = HOk (hd, dp_hlen d) /\
+    dp_close d = conn_close hd /\ dp_method d = meth hd /\ dp_uri d = target hd /\
+    read_req_body c hd (skipn (dp_off d + dp_hlen d) s) = RbOk (dp_body d) (skipn (dp_off d + dp_len d) s).
+Proof.
+  induction fuel as [|f IH]; intros off i d Hoff Hn.
+  - rewrite disp_serve_0 in Hn. destruct i; discriminate.
+  - rewrite disp_serve_S in *. set (rem := skipn off s) in *.
+    destruct (serve_iter c rem) as [|hd n body rest] eqn:Hit; [destruct i; discriminate|].
+    apply serve_iter_inv in Hit as (Hne & Hp & _ & Hb).
+    pose proof (read_req_body_suffix _ _ _ _ _ Hb) as Hsf.
+    assert (Hsuf : suffix rest rem) by (eapply suffix_trans; [exact Hsf|apply suffix_skipn]).
+    destruct (suffix_length _ _ Hsuf) as [Hle Hrest].
+    assert (Hlen : length rem = length s - off) by (unfold rem; apply skipn_length).
+    set (len := length rem - length rest) in *.
+    assert (Hlendef : len = length rem - length rest) by reflexivity.
+    assert (Hb1 : off + len <= length s) by lia.
+    assert (Hrest' : rest = skipn (off + len) s) by (rewrite Hrest; unfold rem; apply skipn_skipn').
+    destruct i as [|i]; cbn [nth_error] in Hn.
+    + injection Hn as <-. cbn [mk_disp dp_win dp_off dp_len dp_hlen dp_close dp_method dp_uri dp_body]. fold rem. fold len.
+      exists hd. repeat split; auto.
+      unfold rem in Hb. rewrite skipn_skipn' in Hb. rewrite <- Hrest'. exact Hb.
+    + destruct (conn_close hd); [destruct i; discriminate|].
+      destruct ((0 <? len) && (len <=? length rem)); [|destruct i; discriminate].
+      rewrite Hrest' in Hn. exact (IH _ _ _ Hb1 Hn).
+Qed.
+
+(* C01_dispatch_is_rfc_prefix, the part the imported head / body theorems give *)
+Theorem dispatch_prefix_partial c s i d :
+  wf_bytes s -> nth_error (disp (serve_frames c s)) i = Some d ->
+  HeadSpec.head_len (skipn (dp_off d) s) = Some (dp_hlen d) /\
+  exists line l, HeadFields (dp_win d) line l /\ dp_method d = rl_method line /\ dp_uri d = rl_uri line /\
+    match d_len (rfc_decision (negb (rl_noHTTP11 line)) (te_vals (hcfg_of c) l) (cl_vals (hcfg_of c) l)) with
+    | BFixed k => dp_len d = dp_hlen d + N.to_nat k /\
+                  (dp_body d = None \/ dp_body d = Some (firstn (N.to_nat k) (skipn (dp_off d + dp_hlen d) s)))
+    | _ => True
+    end.
+Proof.
+  intros Hs Hn.
+  pose proof (dispatched_window_wf _ _ _ _ Hs Hn) as Hw.
+  pose proof Hn as Hn1. rewrite serve_frames_unfold in Hn1.
+  destruct (serve_offsets _ _ _ _ _ _ (Nat.le_0_l _) Hn1) as (Hwin & Hbound & Hh & _).
+  destruct (serve_dispatch_full _ _ _ _ _ _ (Nat.le_0_l _) Hn1) as (hd & Hp & _ & Hm & Hu & Hb).
+  split.
+  - apply HeadTotalProof.req_head_no_overread in Hp as [Hl _]. rewrite Hwin in Hl.
+    rewrite <- (firstn_skipn (c_bsize c) (skipn (dp_off d) s)).
+    unfold HeadSpec.head_len in *. now apply LinesProof.head_len_aux_app.
+  - destruct (head_decision_sound (hcfg_of c) _ _ _ eq_refl Hw Hp) as (line & l & Hf & Hv & Hm' & Hu' & _ & _ & Hlen).
+    exists line, l. split; [exact Hf|]. split; [congruence|]. split; [congruence|].
+    rewrite Hv in Hlen.
+    destruct (d_len _) as [| |k]; try exact I.
+    destruct (read_req_body_fixed _ _ _ _ _ k Hb Hlen) as (Hr & Hk & Hbody).
+    split; [|exact Hbody].
+    assert (E : length (skipn (dp_off d + dp_len d) s) = length (skipn (N.to_nat k) (skipn (dp_off d + dp_hlen d) s))) by (now rewrite Hr).
+    rewrite !skipn_length in E. rewrite skipn_length in Hk. lia.
+Qed.
